@@ -261,22 +261,24 @@ def file_coverage(scns, cov):
             elif e == "ret":
                 if calls.get(ln["id"]) == "close":
                     closed_ret = True
-            elif e == "w":
-                if closed_ret:
-                    cov["written_after_close_returned"] += 1     # finding X08-F1: Close returned before the flush
             elif e == "step" and ln.get("ok"):
                 cov["single_write_steps"] += 1
             elif e == "quiet":
                 if gate and ln.get("wpos") == "gate" and ln.get("buf", 0) > 0:
                     cov["trace_while_writer_in_write"] += 1
+                if gate and ln.get("wpos") == "gate" and closed_ret:
+                    # finding X08-F1: a Close call has returned while the writer goroutine still sits in its write
+                    cov["close_returned_while_writer_in_write"] += 1
                 if lossy and ln.get("buf", 0) == bound + 1:
                     cov["lossy_buffer_at_bound"] += 1
                 if not lossy and ln.get("buf", 0) > bound + 1:
                     cov["nonlossy_buffer_above_bound"] += 1
                 last_quiet = ln
-        ncalls = sum(1 for v in calls.values() if v == "trace")
+        # a lossy tracer accepted fewer events than were traced before anybody called Close: the bound check dropped some
+        first_close = next((i for i, ln in enumerate(sc) if ln.get("e") == "call" and ln.get("op") == "close"), len(sc))
+        ncalls = sum(1 for ln in sc[:first_close] if ln.get("e") == "call" and ln.get("op") == "trace")
         nw = sum(1 for ln in sc if ln.get("e") == "w")
-        if lossy and nw < ncalls and closes == 0:
+        if lossy and nw < ncalls:
             cov["lossy_drops"] += 1
         if sc[0].get("shape") in ("wake", "wake2", "closefull", "par", "many"):
             cov["fifo:%s:%s" % (sc[0]["ctor"], sc[0]["shape"])] += 1
@@ -439,10 +441,10 @@ def run(ctx):
                            "TestX08RealFile (regular file, library constructor, nothing held): the file read when Close() returned held %d of %d "
                            "events (%d such runs of %d); the writer goroutine completed it later" % (ln["have"], ln["want"], len(late), nreal),
                            {"driver": "TestX08RealFile", "scenario": late[0][:6]})
-    if cov["written_after_close_returned"]:
+    if cov["close_returned_while_writer_in_write"]:
         vlib.add_violation(ctx, "P_X08_CloseSynchronous", {"kind": "close-returns-before-flush", "forced": True},
-                           "Close() returned while the writer goroutine was held in its write: %d events reached the underlying writer after "
-                           "Close had returned" % cov["written_after_close_returned"], None)
+                           "Close() returned while the writer goroutine was still held in its write with accepted events unwritten "
+                           "(%d quiescence points, gated writer / full pipe)" % cov["close_returned_while_writer_in_write"], None)
 
     rrejected = {i for i, _, _ in rrej}
     remote_coverage([sc for i, sc in enumerate(remote_scs) if i not in rrejected], rcov)
